@@ -543,9 +543,11 @@ class AssignImplicit(AssignmentBase):
         def flatten(iter_arg):
             return chain(*list(iter_arg))
 
-        variables = super().get_read_variables()
-        variables |= set(flatten(get_variables(expr) for expr in self.expressions))
+        # The variables being solved for are bound in *expressions* only; a
+        # guard or a solver parameter of the same name is read.
+        variables = set(flatten(get_variables(expr) for expr in self.expressions))
         variables -= set(self.solve_variables)
+        variables |= super().get_read_variables()
         variables |= set(flatten(get_variables(expr) for expr
                                  in self.other_params.values()))
         return variables
